@@ -73,7 +73,9 @@ pub fn render(toks: &[T], mode: u8, r: &mut Rng) -> String {
         if i > 0 && (matches!(t, T::Us) || matches!(toks[i - 1], T::Us)) {
             // compound variables are written without inner spaces
         } else if i > 0 {
-            let safe = safe_adjacent(&toks[i - 1], t);
+            // a segment of a compound variable (`x_12`) is part of a word: nothing wordish / numeric may be glued to it
+            let seg = i >= 2 && matches!(toks[i - 2], T::Us) && (toks[i - 1].numeric() || toks[i - 1].wordish());
+            let safe = safe_adjacent(&toks[i - 1], t) && !(seg && (t.wordish() || t.numeric()));
             match mode {
                 0 => s.push(' '),
                 1 => { if !safe { s.push(' ') } }
@@ -203,6 +205,8 @@ pub fn swap_alias(t: &T) -> Option<T> {
 /// keyword <-> alias swap of every token that stands in OPERATOR position (a word such as `and` directly
 /// in leaf position is a function name or an error, not an operator). None: nothing to swap.
 pub fn alias_twin(toks: &[T]) -> Option<Vec<T>> {
+    // iteration declarations (`not in S`, `(u, not) in E`, `i in and()`) put words where this scan expects operators
+    if toks.iter().any(|t| matches!(t, T::Word(s) if s.to_ascii_lowercase() == "in")) { return None; }
     let mut out = Vec::with_capacity(toks.len());
     let mut expect_leaf = true;
     let mut had_unary = false;
@@ -237,6 +241,10 @@ pub fn alias_twin(toks: &[T]) -> Option<Vec<T>> {
             }
         }
         out.push(o);
+    }
+    // a swapped operator glued to the `_` of a compound variable would change the lexical structure (`||_x` / `or_x`)
+    for i in 0..out.len() {
+        if out[i] != toks[i] && (matches!(toks.get(i + 1), Some(T::Us)) || (i > 0 && matches!(toks[i - 1], T::Us))) { return None; }
     }
     if swapped { Some(out) } else { None }
 }
@@ -456,7 +464,10 @@ pub fn lex_supported(src: &str) -> bool {
             if c == '_' && prev_word { return false; }
             if is_simple_run(run) {
                 now_graph = run.iter().collect::<String>().to_ascii_lowercase() == "graph";
-            } else if c == '_' { return false; }
+            } else if c == '_' {
+                // the lone `_` (`no_par`), unless a `{` follows (`_{…}`: a compound variable without a base name)
+                if !(run.len() == 1 && cs.get(j) != Some(&'{')) { return false; }
+            }
             else {
                 let segs: Vec<&[char]> = run.split(|&x| x == '_').collect();
                 if !tail_ok(&segs[1..], &cs[j..]) { return false; }
@@ -510,7 +521,7 @@ pub fn has_glued_keyword(src: &str) -> bool {
 // ------------------------------------------------------------------------------ twin of the printable fragment
 // `coreExp` / `coreProgram` of Rooc/Syntax/FormatToks.lean, ProgramToks.lean, on the parsed tree.  The model answers
 // `parse-program` with `in-fragment` / `out-of-fragment`, so a twin that drifts shows up as a correspondence mismatch.
-const KEYWORDS: [&str; 17] = ["for", "min", "max", "where", "true", "false", "in", "as", "define", "let", "solve", "and", "or", "not", "implies", "iff", "xor"];
+const KEYWORDS: [&str; 18] = ["for", "min", "max", "where", "true", "false", "in", "as", "define", "let", "solve", "and", "or", "not", "implies", "iff", "xor", "_"];
 fn plain_run_s(s: &str) -> bool { let cs: Vec<char> = s.chars().collect(); is_plain_run(&cs) }
 fn plain_var(s: &str) -> bool { plain_run_s(s) && !KEYWORDS.contains(&s) }
 fn float_text(s: &str) -> bool {
@@ -601,7 +612,7 @@ pub fn in_fragment(m: &PreModel, lexeme: bool) -> bool {
                 && core_exp(&c.lhs, lexeme) && (c.is_logic_assertion || core_exp(&c.rhs, lexeme)) && core_for(&c.iteration, lexeme)
                 && not_for(match &c.name_exp { Some(n) => name_word(n.value()), None => first_word(&c.lhs) })
         })
-        && m.constants().iter().all(|k| plain_var(k.name.value()) && core_exp(&k.value, lexeme))
+        && m.constants().iter().all(|k| (plain_var(k.name.value()) || k.name.value() == "_") && core_exp(&k.value, lexeme))
         && m.domains().iter().all(|d| {
             !d.variables().is_empty() && d.variables().iter().all(|v| core_name(v.value(), lexeme))
                 && match d.get_type() {
